@@ -42,6 +42,14 @@ CHROMATIC = {b'C': 0, b'C#': 1, b'D-': 1, b'D': 2, b'D#': 3, b'E-': 3, b'E': 4, 
 
 
 def check(ctx, rep):
+    # every note starts without a length suffix: `length` is reset inside the note branch, so that a bare P (which needs one)
+    # cannot borrow the suffix of an earlier note
+    pl = ctx.fn(S + ':Sound.play_')
+    flp_ = ctx.flow(pl)
+    resets = [a for a in own_nodes(pl) if isinstance(a, ast.Assign) and norm(a.targets[0]) == 'length' and norm(a.value) == 'None']
+    ok_ = len(resets) == 1 and any(f.pol and f.text.startswith("c in (b'A'") for f in flp_.facts(resets[0]))
+    rep.ob('notes.length-suffix-per-note', 'play_: the length suffix is reset for every note, inside the note branch', ok_,
+           'the reset is outside the note branch: `C8 P` takes the 8 of the C for the pause instead of raising Illegal function call', ctx.where(pl))
     from ..optargs import check as _optargs
     _optargs(ctx, rep, ['pcbasic/basic/sound.py'], 2)
     from . import c33 as _c33, _share as _sh
@@ -168,6 +176,25 @@ def _unwrap_keyerror(fn):
 
 def variants(ctx):
     return _variants0(ctx) + [
+        mu.Variant('length-suffix-reset-once-per-play', 'break', S,
+                   lambda tree: _hoist_length(mu.find_def(tree, 'Sound.play_')), expect='notes.length-suffix-per-note'),
         mu.Variant('sound-voice-defaulted-by-truthiness', 'break', 'pcbasic/basic/sound.py',
                    lambda tree: (lambda fn: mu.insert_before(fn, lambda st: isinstance(st, ast.Expr) and norm(st.value) == 'list(args)', 'voice = voice or 0'))(mu.find_def(tree, 'Sound.sound_')), expect='arguments.zero-is-not-omitted'),
     ]
+
+
+def _hoist_length(fn):
+    hit = []
+    for x in ast.walk(fn):
+        b = getattr(x, 'body', None)
+        if isinstance(b, list):
+            for st in b:
+                if isinstance(st, ast.Assign) and norm(st) == 'length = None':
+                    hit.append((b, st))
+    if len(hit) != 1:
+        return False
+    hit[0][0].remove(hit[0][1])
+    k = [i for i, st in enumerate(fn.body) if norm(st) == 'next_oct = 0']
+    fn.body.insert(k[0] if k else 1, hit[0][1])
+    return True
+
